@@ -47,6 +47,8 @@
 //! differing byte.
 
 mod alt;
+mod end;
+mod sweep;
 
 use std::{
     collections::{BTreeMap, BTreeSet},
@@ -113,6 +115,8 @@ struct Hist {
     n_half: usize,
     /// every k is failed with EVERY error kind (sticky and transient) instead of two rotating kinds
     all_kinds: bool,
+    /// block-boundary sweep item: the BGZF block boundary lies this many bytes before the end of the index
+    sweep: Option<usize>,
 }
 
 impl Hist {
@@ -169,6 +173,8 @@ enum Part {
     /// preceded by n consecutive `Interrupted` results (n = 1, 2, 3, 4, 7) or fails (every error kind, sticky and
     /// transient); whenever all calls return Ok the committed bytes must be what a healthy staging run commits
     Staging,
+    /// call sequences around the end of a BGZF-backed writer that is then dropped (module `end`)
+    EndSeq,
 }
 
 struct Case {
@@ -855,6 +861,65 @@ fn run_staging(h: &HCtx, o: &mut CaseOut, v: &mut Viol) {
     }
 }
 
+/// Module `end`: call sequences around the end of a BGZF-backed writer, then drop; healthy and short-write sinks.
+fn run_end_sequences(h: &HCtx, limit: usize, o: &mut CaseOut, v: &mut Viol) {
+    let kind = h.item.kind;
+    let mt = h.drive == Drive::BgzfMt;
+    let w = match kind {
+        Kind::Bgzf if mt => "bgzf-mt-drop".to_string(),
+        Kind::Bgzf => "bgzf-drop".to_string(),
+        k => format!("{}-drop", k.name()),
+    };
+    o.fp = fnv1a(format!("E|{w}|{}", h.item.name).as_bytes());
+    let full_content = obgzf::walk(&h.item.bytes).ok().map(|wk| wk.concat()).unwrap_or_default();
+    let payload: &[u8] = match &h.prepared.model {
+        Model::Bgzf { payload, .. } => payload,
+        _ => &[],
+    };
+    for &seq in end::sequences(kind, mt) {
+        for (pname, accept) in [("all", Accept::All), ("at-most-7", Accept::AtMost(7)), ("half", Accept::Half)] {
+            let sink = FaultyWrite::new(FaultMode::None, io::ErrorKind::Other, accept);
+            let s2 = sink.clone();
+            let res = guard::catch(|| {
+                if kind == Kind::Bgzf {
+                    end::bgzf_sequence(payload, limit, mt, seq, s2)
+                } else {
+                    end::format_sequence(h.prepared, seq, s2).map(|()| full_content.clone())
+                }
+            });
+            o.evaluations += 1;
+            o.count("end_sequence_runs", 1);
+            o.count(&format!("end_sequences[{w}|{seq}]"), 1);
+            let got = sink.bytes();
+            let what = format!("{w}: sequence {seq} on {} (sink accepts {pname})", h.item.name);
+            let witness = json!({"writer": w, "item": h.item.name, "sequence": seq, "sink": pname});
+            match res {
+                Err(p) => v.add(o, format!("{w}:panic:{PH_FINISH}:{}", p.sig), format!("{what}: panicked: {}", p.message), witness),
+                Ok(Err(e)) => v.add(o, format!("{w}:not-ok-on-healthy-sink:{PH_FINISH}"), format!("{what}: a call returned {:?}: {e}", e.kind()), witness),
+                Ok(Ok(expected)) => match obgzf::walk(&got) {
+                    Err(e) => v.add(o, format!("{w}:drop-loses-data:{PH_FINISH}"), format!("{what}: after the drop the destination is not a walkable BGZF file: {e}"), witness),
+                    Ok(wk) => {
+                        let data = wk.concat();
+                        if data != expected {
+                            v.add(
+                                o,
+                                format!("{w}:drop-loses-data:{PH_FINISH}"),
+                                format!("{what}: after the drop the destination inflates to {} bytes, {} were written (first difference at {})", data.len(), expected.len(), first_diff(&data, &expected)),
+                                witness,
+                            );
+                        } else if !wk.ends_with_eof_marker() {
+                            v.add(o, format!("{w}:drop-loses-data:{PH_EOF}"), format!("{what}: after the drop the destination does not end with the EOF marker"), witness);
+                        } else {
+                            o.count("end_sequence_outputs_complete", 1);
+                        }
+                    }
+                },
+            }
+            o.fps.push(fnv1a(format!("E|{w}|{seq}|{pname}").as_bytes()));
+        }
+    }
+}
+
 fn judge_same_output(h: &HCtx, what: &str, class: &str, pattern: &str, sink: &FaultyWrite, res: Result<io::Result<()>, guard::PanicInfo>, o: &mut CaseOut, v: &mut Viol) {
     let w = &h.writer;
     let got = sink.bytes();
@@ -1032,6 +1097,7 @@ fn run_fs(ctx: &Ctx, c: &Case, item: &Item, prepared: &Prepared, w: &str, o: &mu
         Part::Base => "base".to_string(),
         Part::Faults { lo, .. } | Part::FaultsHalf { lo, .. } => lo.to_string(),
         Part::Staging => "staging".to_string(),
+        Part::EndSeq => "endseq".to_string(),
     };
     let path = ctx.work.join(format!("c14-fs-{}-{tag}.out", c.hist));
     let _ = std::fs::remove_file(&path);
@@ -1060,7 +1126,7 @@ fn run_fs(ctx: &Ctx, c: &Case, item: &Item, prepared: &Prepared, w: &str, o: &mu
                 }
             }
         }
-        Part::FaultsHalf { .. } | Part::Staging => {}
+        Part::FaultsHalf { .. } | Part::Staging | Part::EndSeq => {}
         Part::Faults { lo, hi } => {
             if !matches!(healthy_res, Ok(Ok(()))) {
                 return; // reported by the base case
@@ -1144,6 +1210,8 @@ struct World {
     cases: Vec<Case>,
     skipped_large: Vec<String>,
     unwritable: usize,
+    /// uncompressed offset at which the BGZF writer emits a block by itself (measured)
+    bgzf_limit: usize,
 }
 
 fn gen_world(ctx: &Ctx) -> World {
@@ -1164,6 +1232,14 @@ fn gen_world(ctx: &Ctx) -> World {
     }
     let unwritable = items.iter().filter(|i| !i.writable()).count();
     items.retain(|i| i.writable());
+    // block-boundary sweep items (synthetic CSI / tabix indexes), always included, Std drive only
+    let bgzf_limit = end::bgzf_limit();
+    let first_sweep_item = items.len();
+    let mut sweep_d: Vec<usize> = Vec::new();
+    for (it, d) in sweep::items(bgzf_limit) {
+        items.push(it);
+        sweep_d.push(d);
+    }
 
     let max_n = ctx.budget("max_calls", 4000, 80000) as usize;
     let per_kind = ctx.budget("per_kind", 4, 30) as usize;
@@ -1172,10 +1248,20 @@ fn gen_world(ctx: &Ctx) -> World {
 
     // candidate histories with their healthy call counts
     let mut cand: Vec<Hist> = Vec::new();
+    let mut sweep_hists: Vec<Hist> = Vec::new();
     for (i, it) in items.iter().enumerate() {
+        if i >= first_sweep_item {
+            if only.map(|o| o == it.kind.name()).unwrap_or(true) {
+                if let Ok(p) = corpus::prepare_write(it) {
+                    let n = probe_run(it, &p, Drive::Std, false).map(|h| h.calls.len()).unwrap_or(0);
+                    sweep_hists.push(Hist { item: i, drive: Drive::Std, n, n_half: 0, all_kinds: false, sweep: Some(sweep_d[i - first_sweep_item]) });
+                }
+            }
+            continue;
+        }
         let drives = drives_of(it.kind);
         let Ok(p) = corpus::prepare_write(it) else {
-            cand.push(Hist { item: i, drive: Drive::Std, n: 0, n_half: 0, all_kinds: false });
+            cand.push(Hist { item: i, drive: Drive::Std, n: 0, n_half: 0, all_kinds: false, sweep: None });
             continue;
         };
         for &d in &drives {
@@ -1186,13 +1272,13 @@ fn gen_world(ctx: &Ctx) -> World {
             }
             if d == Drive::Fs {
                 // positions = byte offsets 0..len at which the file may not grow any further, plus /dev/full
-                cand.push(Hist { item: i, drive: d, n: it.bytes.len() + 1, n_half: 0, all_kinds: false });
+                cand.push(Hist { item: i, drive: d, n: it.bytes.len() + 1, n_half: 0, all_kinds: false, sweep: None });
                 continue;
             }
             let n = probe_run(it, &p, d, false).map(|h| h.calls.len()).unwrap_or(0);
             // the background thread of the multithreaded writer emits frames exactly like the single-threaded one
             let n_half = if n > 0 && n <= half_max && !matches!(d, Drive::BgzfMt | Drive::BgzfMtDrop) { probe_run(it, &p, d, true).map(|h| h.calls.len()).unwrap_or(0) } else { 0 };
-            cand.push(Hist { item: i, drive: d, n, n_half, all_kinds: false });
+            cand.push(Hist { item: i, drive: d, n, n_half, all_kinds: false, sweep: None });
         }
     }
     // per writer: at most `per_kind` histories with N <= max_n, in corpus order (tiny, header-only, small, ...);
@@ -1225,6 +1311,7 @@ fn gen_world(ctx: &Ctx) -> World {
             hists.push(h);
         }
     }
+    hists.extend(sweep_hists);
     hists.sort_by_key(|h| (h.item, h.drive));
     // per writer: the (up to) three longest histories below a size cap get every error kind at every position
     let all_kinds_max = ctx.budget("all_kinds_max_calls", 700, 1500) as usize;
@@ -1232,7 +1319,7 @@ fn gen_world(ctx: &Ctx) -> World {
     {
         let mut by_writer: BTreeMap<String, Vec<usize>> = BTreeMap::new();
         for (i, h) in hists.iter().enumerate() {
-            if h.drive != Drive::Fs && h.n > 0 && h.n <= all_kinds_max {
+            if h.drive != Drive::Fs && h.sweep.is_none() && h.n > 0 && h.n <= all_kinds_max {
                 by_writer.entry(h.writer_name(&items)).or_default().push(i);
             }
         }
@@ -1249,8 +1336,11 @@ fn gen_world(ctx: &Ctx) -> World {
     let mut cases = Vec::new();
     for (hi, h) in hists.iter().enumerate() {
         cases.push(Case { hist: hi, part: Part::Base });
-        if h.drive != Drive::Fs && h.n > 0 {
+        if h.drive != Drive::Fs && h.n > 0 && h.sweep.is_none() {
             cases.push(Case { hist: hi, part: Part::Staging });
+        }
+        if h.sweep.is_none() && matches!(h.drive, Drive::Std | Drive::BgzfMt) && !end::sequences(items[h.item].kind, h.drive == Drive::BgzfMt).is_empty() {
+            cases.push(Case { hist: hi, part: Part::EndSeq });
         }
         let per_run_overhead = match h.drive {
             Drive::BgzfMt | Drive::BgzfMtDrop => 4000,
@@ -1269,7 +1359,7 @@ fn gen_world(ctx: &Ctx) -> World {
         }
         let mut lo = 0usize;
         let mut cost = 0usize;
-        for k in 0..h.n_half {
+        for k in 0..(if h.sweep.is_some() { 0 } else { h.n_half }) {
             cost += k + per_run_overhead;
             if cost >= chunk_cost || k + 1 == h.n_half {
                 cases.push(Case { hist: hi, part: Part::FaultsHalf { lo, hi: k + 1 } });
@@ -1278,7 +1368,7 @@ fn gen_world(ctx: &Ctx) -> World {
             }
         }
     }
-    World { items, hists, cases, skipped_large, unwritable }
+    World { items, hists, cases, skipped_large, unwritable, bgzf_limit }
 }
 
 fn case_json(w: &World, c: &Case) -> Value {
@@ -1289,8 +1379,9 @@ fn case_json(w: &World, c: &Case) -> Value {
         Part::Faults { lo, hi } => ("faults", lo, hi),
         Part::FaultsHalf { lo, hi } => ("faults-on-half-accepting-sink", lo, hi),
         Part::Staging => ("staging-destination", 0, 0),
+        Part::EndSeq => ("end-sequences-then-drop", 0, 0),
     };
-    json!({"writer": h.writer_name(&w.items), "item": it.name, "item_len": it.bytes.len(), "drive": h.drive.name(), "part": part, "lo": lo, "hi": hi, "n": h.n, "all_error_kinds": h.all_kinds})
+    json!({"writer": h.writer_name(&w.items), "item": it.name, "item_len": it.bytes.len(), "drive": h.drive.name(), "part": part, "lo": lo, "hi": hi, "n": h.n, "all_error_kinds": h.all_kinds, "block_boundary_bytes_before_end": h.sweep})
 }
 
 fn run_case(ctx: &Ctx, w: &World, c: &Case) -> CaseOut {
@@ -1345,6 +1436,19 @@ fn run_case(ctx: &Ctx, w: &World, c: &Case) -> CaseOut {
                 o.count("fault_positions_on_half_accepting_sink_total", h.n_half as u64);
             }
             o.count("flush_calls_in_healthy_histories", healthy.calls.iter().filter(|c| c.flush).count() as u64);
+            if let Some(d) = h.sweep {
+                // the layout the sweep relies on: first block = the measured limit, d bytes follow
+                let ok = obgzf::walk(&healthy.bytes).ok().map(|wk| {
+                    let data: Vec<usize> = wk.members.iter().filter(|m| !m.is_eof_marker).map(|m| m.data.len()).collect();
+                    data.first() == Some(&w.bgzf_limit) && data.iter().sum::<usize>() == w.bgzf_limit + d
+                });
+                if ok == Some(true) {
+                    o.count(&format!("block_boundary_sweep[{writer}|{d:02}-bytes-before-end]"), 1);
+                    o.count("block_boundary_sweep_histories", 1);
+                } else {
+                    o.inconclusive.push(format!("{writer} sweep item {}: the block boundary is not {d} bytes before the end of the index", item.name));
+                }
+            }
             run_base(ctx, &hc, &mut o, &mut v);
             o.fp = fnv1a(format!("B|{writer}|{}", item.name).as_bytes());
             o.sample = Some(json!({"writer": writer, "item": item.name, "sink_calls": healthy.calls.len(), "bytes": healthy.bytes.len()}));
@@ -1368,9 +1472,14 @@ fn run_case(ctx: &Ctx, w: &World, c: &Case) -> CaseOut {
                 }
                 o.count("fault_positions_enumerated", 1);
                 o.count(&format!("fault_positions_enumerated[{writer}]"), 1);
+                if h.sweep.is_some() && healthy.calls.get(k).map(|c| !c.flush && c.off < phases.members.first().map(|m| m.1).unwrap_or(0)).unwrap_or(false) {
+                    // the destination fails during the block write that the boundary field triggers
+                    o.count(&format!("block_boundary_sweep_faults_in_the_triggered_block_write[{writer}]"), 2);
+                }
             }
         }
         Part::Staging => run_staging(&hc, &mut o, &mut v),
+        Part::EndSeq => run_end_sequences(&hc, w.bgzf_limit, &mut o, &mut v),
         Part::FaultsHalf { lo, hi } => {
             let rot = (fnv1a(item.name.as_bytes()) % ERROR_KINDS.len() as u64) as usize;
             for k in lo..hi.min(healthy.calls.len()) {
@@ -1477,6 +1586,18 @@ fn main() {
             }
             rep.extra.insert("error_kinds".into(), json!(kinds_table));
             rep.floor("fault_positions_enumerated_with_every_error_kind", get(&rep, "fault_positions_enumerated_with_every_error_kind"), 2000);
+            for wn in ["csi", "tbi"] {
+                for d in 0..=sweep::TAIL {
+                    rep.floor(&format!("block_boundary_sweep[{wn}|{d:02}-bytes-before-end]"), get(&rep, &format!("block_boundary_sweep[{wn}|{d:02}-bytes-before-end]")), 1);
+                }
+                rep.floor(&format!("block_boundary_sweep_faults_in_the_triggered_block_write[{wn}]"), get(&rep, &format!("block_boundary_sweep_faults_in_the_triggered_block_write[{wn}]")), 1000);
+            }
+            for (wn, seqs) in [("bgzf-drop", end::BGZF_ST), ("bgzf-mt-drop", end::BGZF_MT), ("bam-drop", end::RECORDS), ("bcf-drop", end::RECORDS), ("samgz-drop", end::RECORDS), ("vcfgz-drop", end::RECORDS), ("csi-drop", end::INDEX), ("tbi-drop", end::INDEX)] {
+                for seq in seqs {
+                    rep.floor(&format!("end_sequences[{wn}|{seq}]"), get(&rep, &format!("end_sequences[{wn}|{seq}]")), 3);
+                }
+            }
+            rep.extra.insert("bgzf_block_limit_measured".into(), json!(world.bgzf_limit));
             rep.floor("staging_histories_judged", get(&rep, "staging_histories_judged"), 40);
             rep.floor("flush_interrupts_delivered", get(&rep, "flush_interrupts_delivered"), 500);
             for n in [1, 2, 3, 4, 7] {
